@@ -15,6 +15,11 @@ from . import llsym
 BVW = 160
 
 
+class Unmodelled(llsym.Unsupported):
+    """The code under test applied an operation the proxies do not model (e.g. true division).
+    Harnesses fall back to solver-chosen concrete models of the path for such paths."""
+
+
 class SymBool(object):
     def __init__(self, ex, term):
         self.ex, self.t = ex, term
@@ -165,8 +170,14 @@ class SymInt(object):
             return NotImplemented
         return self._mk(self._mod(b, self.t))
 
+    def __rtruediv__(self, o):
+        raise Unmodelled('true division of symbolic ints')
+
+    def __float__(self):
+        raise Unmodelled('float() of a symbolic int')
+
     def __truediv__(self, o):
-        raise TypeError('pysym: true division of symbolic ints is not modelled')
+        raise Unmodelled('true division of symbolic ints')
 
     # -- shifts and bit operations
     def _shift(self, o, left):
